@@ -8,6 +8,7 @@ import (
 	"go/types"
 	"os"
 	"regexp"
+	"sort"
 	"strconv"
 	"strings"
 
@@ -30,6 +31,7 @@ type msgMatcher struct {
 	fn      string
 	cfgName string
 	heap    func(h map[string]SV) // provisioned configuration
+	local   string                // "tcp" / "udp": the dynamic type of the connection's local address ("" = unknown)
 	cases   []msgCase
 	source  string
 }
@@ -119,6 +121,7 @@ func msgScenario(c *Ctx, mm msgMatcher, mc msgCase) *Scenario {
 		Heap:   map[string]SV{"msg.pos": symInt(0)},
 	}
 	if mm.heap != nil {
+		msgCtx = c
 		mm.heap(sc.Heap)
 	}
 	if root := c.Fn(mm.fn); root != nil {
@@ -190,6 +193,22 @@ func msgScenario(c *Ctx, mm msgMatcher, mc msgCase) *Scenario {
 			return read(st, args[1], args[2].N)
 		case callee == "layer4.(*Connection).Read" && len(args) == 2:
 			return read(st, args[1], 1)
+		case strings.HasSuffix(callee, ".LocalAddr") && mm.local != "":
+			if np := c.Prog.ImportedPackage("net"); np != nil {
+				name := map[string]string{"tcp": "TCPAddr", "udp": "UDPAddr"}[mm.local]
+				if t := np.Type(name); t != nil {
+					return SV{K: "ref", Known: true, Desc: "localaddr", DynT: types.NewPointer(t.Type()), Dyn: typeStr(types.NewPointer(t.Type()))}, true
+				}
+			}
+		case strings.HasPrefix(callee, "slices.Contains") && len(args) == 2 && args[1].K == "int" && args[1].Known:
+			if xs, ok := concreteInts(st, args[0]); ok {
+				for _, x := range xs {
+					if x == args[1].N {
+						return symBool(true), true
+					}
+				}
+				return symBool(false), true
+			}
 		case callee == "bytes.NewBuffer" && len(args) == 1:
 			id := ev.fresh("cbuf")
 			st.heap[id+".data"] = args[0]
@@ -328,7 +347,7 @@ func msgScenario(c *Ctx, mm msgMatcher, mc msgCase) *Scenario {
 			if ok1 && ok2 {
 				return symBool(bytes.HasSuffix(a, b)), true
 			}
-		case callee == "(*regexp.Regexp).MatchString" && len(args) == 2:
+		case (callee == "(*regexp.Regexp).MatchString" || callee == "(*regexp.Regexp).Match") && len(args) == 2:
 			// a regular expression compiled from a constant of the program (or given by the scenario) applied to a
 			// known string is computed
 			if os.Getenv("L4DEBUG") == "tbl" {
@@ -651,7 +670,280 @@ func pgMsg(code uint32, body []byte) []byte {
 	return append(out, body...)
 }
 
+// msgCtx is the program the configuration builders may consult (tables of the program text).
+var msgCtx *Ctx
+
+// digestSizes: the distinct Size values of the entries of the openvpn module's AuthDigests table, ascending
+// (what its AuthDigestSizes initialiser computes), read from the composite literal.
+func digestSizes(c *Ctx) []int64 {
+	e, info := findVarInit(c, "modules/l4openvpn", "AuthDigests")
+	cl, ok := e.(*ast.CompositeLit)
+	if !ok {
+		return nil
+	}
+	seen := map[int64]bool{}
+	for _, el := range cl.Elts {
+		ecl, ok := el.(*ast.CompositeLit)
+		if !ok {
+			return nil
+		}
+		for _, f := range ecl.Elts {
+			kv, ok := f.(*ast.KeyValueExpr)
+			if !ok {
+				continue
+			}
+			if id, ok := kv.Key.(*ast.Ident); ok && id.Name == "Size" {
+				tv, ok := info.Types[kv.Value]
+				if !ok || tv.Value == nil {
+					return nil
+				}
+				v, _ := constant.Int64Val(constant.ToInt(tv.Value))
+				seen[v] = true
+			}
+		}
+	}
+	var out []int64
+	for v := range seen {
+		out = append(out, v)
+	}
+	sort.Slice(out, func(i, j int) bool { return out[i] < out[j] })
+	return out
+}
+
+// ovpnCfg: a provisioned openvpn matcher accepting the given modes, without keys (nothing to decrypt or
+// authenticate with), timestamps ignored or not; digest = the size of the configured auth digest (0: none).
+func ovpnCfg(modes string, ignoreTS bool, digest int64) func(h map[string]SV) {
+	return func(h map[string]SV) {
+		h["m.acceptPlain"] = symBool(strings.Contains(modes, "plain"))
+		h["m.acceptAuth"] = symBool(strings.Contains(modes, "auth"))
+		h["m.acceptCrypt"] = symBool(strings.Contains(modes, "crypt,") || strings.HasSuffix(modes, "crypt"))
+		h["m.acceptCrypt2"] = symBool(strings.Contains(modes, "crypt2"))
+		h["m.IgnoreCrypto"], h["m.IgnoreTimestamp"] = symBool(false), symBool(ignoreTS)
+		h["m.groupKeyAuth"], h["m.groupKeyCrypt"], h["m.serverKey"] = symNil(), symNil(), symNil()
+		h["m.clientKeys"] = symSlice("m.clientKeys", 0)
+		if digest == 0 {
+			h["m.authDigest"] = symNil()
+		} else {
+			h["m.authDigest"] = symRef("ad", false)
+			h["ad.Size"] = symInt(digest)
+		}
+		if sizes := digestSizes(msgCtx); sizes != nil {
+			key := "global:modules/l4openvpn.AuthDigestSizes"
+			h[key] = symSlice(key, int64(len(sizes)))
+			for i, v := range sizes {
+				h[fmt.Sprintf("%s[%d]", key, i)] = symInt(v)
+			}
+		}
+	}
+}
+
+func be32(v uint32) []byte { return []byte{byte(v >> 24), byte(v >> 16), byte(v >> 8), byte(v)} }
+func be16(v int) []byte    { return []byte{byte(v >> 8), byte(v)} }
+
+var ovpnSID = []byte{1, 2, 3, 4, 5, 6, 7, 8}
+
+// ovpnPlain / ovpnAuth / ovpnCrypt: the client hard reset messages without the opcode byte.
+func ovpnPlain(sid []byte, count byte, pid uint32) []byte { return cat(sid, []byte{count}, be32(pid)) }
+func ovpnAuth(sid []byte, hmacLen int, rpid, ts uint32, count byte, pid uint32) []byte {
+	h := make([]byte, hmacLen)
+	for i := range h {
+		h[i] = byte(0xa0 + i%16)
+	}
+	return cat(sid, h, be32(rpid), be32(ts), []byte{count}, be32(pid))
+}
+func ovpnCrypt(sid []byte, rpid, ts uint32, total int) []byte {
+	out := cat(sid, be32(rpid), be32(ts))
+	for len(out) < total {
+		out = append(out, byte(0xc0+len(out)%16))
+	}
+	return out
+}
+
+// ovpnUDP / ovpnTCP: a datagram, and the same message behind its two length bytes (declared = -1: the true length).
+func ovpnUDP(op byte, body []byte) []byte { return cat([]byte{op}, body) }
+func ovpnTCP(op byte, body []byte, declared int) []byte {
+	if declared < 0 {
+		declared = 1 + len(body)
+	}
+	return cat(be16(declared), []byte{op}, body)
+}
+
+const ovpnV2, ovpnV3 = 7 << 3, 10 << 3
+
+func regexpCfg(pattern string, count int64) func(h map[string]SV) {
+	return func(h map[string]SV) {
+		h["m.Count"], h["m.Pattern"] = symInt(count), symStr(pattern)
+		h["m.compiled"], h["regexp:m.compiled"] = symRef("m.compiled", false), symStr(pattern)
+	}
+}
+
 var msgMatchers = []msgMatcher{
+	{
+		fn: "modules/l4openvpn.(*MatchOpenVPN).Match", cfgName: "openvpn plain udp", heap: ovpnCfg("plain", true, 0), local: "udp",
+		cases: []msgCase{
+			{"hard reset v2", ovpnUDP(ovpnV2, ovpnPlain(ovpnSID, 0, 0)), "yes"},
+			{"session id of one bit", ovpnUDP(ovpnV2, ovpnPlain([]byte{0, 0, 0, 0, 0, 0, 0, 1}, 0, 0)), "yes"},
+			{"session id high bit only", ovpnUDP(ovpnV2, ovpnPlain([]byte{0x80, 0, 0, 0, 0, 0, 0, 0}, 0, 0)), "yes"},
+			{"zero session id", ovpnUDP(ovpnV2, ovpnPlain(make([]byte, 8), 0, 0)), "no"},
+			{"one acknowledged packet id", ovpnUDP(ovpnV2, ovpnPlain(ovpnSID, 1, 0)), "no"},
+			{"packet id 1", ovpnUDP(ovpnV2, ovpnPlain(ovpnSID, 0, 1)), "no"},
+			{"packet id 1<<24", ovpnUDP(ovpnV2, ovpnPlain(ovpnSID, 0, 1<<24)), "no"},
+			{"key id 1", ovpnUDP(ovpnV2|1, ovpnPlain(ovpnSID, 0, 0)), "no"},
+			{"key id 4", ovpnUDP(ovpnV2|4, ovpnPlain(ovpnSID, 0, 0)), "no"},
+			{"hard reset v3 opcode", ovpnUDP(ovpnV3, ovpnPlain(ovpnSID, 0, 0)), "no"},
+			{"hard reset v1 opcode", ovpnUDP(1<<3, ovpnPlain(ovpnSID, 0, 0)), "no"},
+			{"server hard reset v2 opcode", ovpnUDP(8<<3, ovpnPlain(ovpnSID, 0, 0)), "no"},
+			{"one byte short", ovpnUDP(ovpnV2, ovpnPlain(ovpnSID, 0, 0)[:12]), "no"},
+			{"one byte long", ovpnUDP(ovpnV2, cat(ovpnPlain(ovpnSID, 0, 0), []byte{0})), "no"},
+			{"auth-sized message", ovpnUDP(ovpnV2, ovpnAuth(ovpnSID, 20, 1, 0, 0, 0)), "no"},
+			{"opcode byte only", []byte{ovpnV2}, "more"},
+			{"nothing", []byte{}, "more"},
+		},
+		source: "OpenVPN P_CONTROL_HARD_RESET_CLIENT_V2 without tls-auth: opcode 7, key id 0, 8-byte non-zero session id, no acks, packet id 0 (14 bytes)",
+	},
+	{
+		fn: "modules/l4openvpn.(*MatchOpenVPN).Match", cfgName: "openvpn plain tcp", heap: ovpnCfg("plain", true, 0), local: "tcp",
+		cases: []msgCase{
+			{"hard reset v2", ovpnTCP(ovpnV2, ovpnPlain(ovpnSID, 0, 0), -1), "yes"},
+			{"zero session id", ovpnTCP(ovpnV2, ovpnPlain(make([]byte, 8), 0, 0), -1), "no"},
+			{"packet id 1", ovpnTCP(ovpnV2, ovpnPlain(ovpnSID, 0, 1), -1), "no"},
+			{"key id 1", ovpnTCP(ovpnV2|1, ovpnPlain(ovpnSID, 0, 0), -1), "no"},
+			{"declared length 13", ovpnTCP(ovpnV2, ovpnPlain(ovpnSID, 0, 0), 13), "no"},
+			{"declared length 0", ovpnTCP(ovpnV2, ovpnPlain(ovpnSID, 0, 0), 0), "no"},
+			{"declared length 15, 14 bytes", ovpnTCP(ovpnV2, ovpnPlain(ovpnSID, 0, 0), 15), "more"},
+			{"declared length 15, 15 bytes", ovpnTCP(ovpnV2, cat(ovpnPlain(ovpnSID, 0, 0), []byte{0}), 15), "no"},
+			{"declared 14, one byte follows", ovpnTCP(ovpnV2, cat(ovpnPlain(ovpnSID, 0, 0), []byte{0}), 14), "no"},
+			{"declared length 0xffff", cat([]byte{0xff, 0xff, ovpnV2}, ovpnPlain(ovpnSID, 0, 0)), "no"},
+			{"declared length 1079", cat(be16(1079), []byte{ovpnV2}, ovpnPlain(ovpnSID, 0, 0)), "no"},
+			{"length bytes only", []byte{0, 14}, "more"},
+			{"one length byte", []byte{0}, "more"},
+			{"cut after the session id", ovpnTCP(ovpnV2, ovpnPlain(ovpnSID, 0, 0), -1)[:11], "more"},
+			{"one byte missing", ovpnTCP(ovpnV2, ovpnPlain(ovpnSID, 0, 0), -1)[:15], "more"},
+		},
+		source: "the same message behind a 16-bit length (TCP framing); a byte beyond the declared length means another protocol",
+	},
+	{
+		fn: "modules/l4openvpn.(*MatchOpenVPN).Match", cfgName: "openvpn auth udp", heap: ovpnCfg("auth", true, 0), local: "udp",
+		cases: []msgCase{
+			{"sha1 hmac", ovpnUDP(ovpnV2, ovpnAuth(ovpnSID, 20, 1, 0, 0, 0)), "yes"},
+			{"md5 hmac (shortest)", ovpnUDP(ovpnV2, ovpnAuth(ovpnSID, 16, 1, 0, 0, 0)), "yes"},
+			{"sha512 hmac (longest)", ovpnUDP(ovpnV2, ovpnAuth(ovpnSID, 64, 1, 0, 0, 0)), "yes"},
+			{"md5+sha1 hmac (36)", ovpnUDP(ovpnV2, ovpnAuth(ovpnSID, 36, 1, 0, 0, 0)), "yes"},
+			{"hmac of 17 bytes", ovpnUDP(ovpnV2, ovpnAuth(ovpnSID, 17, 1, 0, 0, 0)), "no"},
+			{"hmac of 15 bytes", ovpnUDP(ovpnV2, ovpnAuth(ovpnSID, 15, 1, 0, 0, 0)), "no"},
+			{"hmac of 65 bytes", ovpnUDP(ovpnV2, ovpnAuth(ovpnSID, 65, 1, 0, 0, 0)), "no"},
+			{"hmac of 63 bytes", ovpnUDP(ovpnV2, ovpnAuth(ovpnSID, 63, 1, 0, 0, 0)), "no"},
+			{"replay packet id 0", ovpnUDP(ovpnV2, ovpnAuth(ovpnSID, 20, 0, 0, 0, 0)), "no"},
+			{"replay packet id 2", ovpnUDP(ovpnV2, ovpnAuth(ovpnSID, 20, 2, 0, 0, 0)), "no"},
+			{"replay packet id 1<<24", ovpnUDP(ovpnV2, ovpnAuth(ovpnSID, 20, 1<<24, 0, 0, 0)), "no"},
+			{"zero session id", ovpnUDP(ovpnV2, ovpnAuth(make([]byte, 8), 20, 1, 0, 0, 0)), "no"},
+			{"one acknowledged packet id", ovpnUDP(ovpnV2, ovpnAuth(ovpnSID, 20, 1, 0, 1, 0)), "no"},
+			{"packet id 1", ovpnUDP(ovpnV2, ovpnAuth(ovpnSID, 20, 1, 0, 0, 1)), "no"},
+			{"key id 1", ovpnUDP(ovpnV2|1, ovpnAuth(ovpnSID, 20, 1, 0, 0, 0)), "no"},
+			{"plain message", ovpnUDP(ovpnV2, ovpnPlain(ovpnSID, 0, 0)), "no"},
+			{"hard reset v3 opcode", ovpnUDP(ovpnV3, ovpnAuth(ovpnSID, 20, 1, 0, 0, 0)), "no"},
+		},
+		source: "hard reset v2 with tls-auth: session id, HMAC of a supported digest size, replay packet id 1, timestamp, no acks, packet id 0",
+	},
+	{
+		fn: "modules/l4openvpn.(*MatchOpenVPN).Match", cfgName: "openvpn auth tcp", heap: ovpnCfg("auth", true, 0), local: "tcp",
+		cases: []msgCase{
+			{"sha1 hmac", ovpnTCP(ovpnV2, ovpnAuth(ovpnSID, 20, 1, 0, 0, 0), -1), "yes"},
+			{"sha512 hmac (longest)", ovpnTCP(ovpnV2, ovpnAuth(ovpnSID, 64, 1, 0, 0, 0), -1), "yes"},
+			{"md5 hmac (shortest)", ovpnTCP(ovpnV2, ovpnAuth(ovpnSID, 16, 1, 0, 0, 0), -1), "yes"},
+			{"hmac of 65 bytes", ovpnTCP(ovpnV2, ovpnAuth(ovpnSID, 65, 1, 0, 0, 0), -1), "no"},
+			{"replay packet id 2", ovpnTCP(ovpnV2, ovpnAuth(ovpnSID, 20, 2, 0, 0, 0), -1), "no"},
+			{"one byte follows", ovpnTCP(ovpnV2, cat(ovpnAuth(ovpnSID, 20, 1, 0, 0, 0), []byte{0}), 42), "no"},
+			{"one byte missing", ovpnTCP(ovpnV2, ovpnAuth(ovpnSID, 20, 1, 0, 0, 0), -1)[:43], "more"},
+		},
+		source: "the same behind the TCP length",
+	},
+	{
+		fn: "modules/l4openvpn.(*MatchOpenVPN).Match", cfgName: "openvpn auth udp digest sha256", heap: ovpnCfg("auth", true, 32), local: "udp",
+		cases: []msgCase{
+			{"32-byte hmac", ovpnUDP(ovpnV2, ovpnAuth(ovpnSID, 32, 1, 0, 0, 0)), "yes"},
+			{"20-byte hmac", ovpnUDP(ovpnV2, ovpnAuth(ovpnSID, 20, 1, 0, 0, 0)), "no"},
+			{"64-byte hmac", ovpnUDP(ovpnV2, ovpnAuth(ovpnSID, 64, 1, 0, 0, 0)), "no"},
+		},
+		source: "auth_digest configured: the HMAC must have that digest's size",
+	},
+	{
+		fn: "modules/l4openvpn.(*MatchOpenVPN).Match", cfgName: "openvpn crypt udp", heap: ovpnCfg("crypt", true, 0), local: "udp",
+		cases: []msgCase{
+			{"tls-crypt hard reset", ovpnUDP(ovpnV2, ovpnCrypt(ovpnSID, 1, 0, 53)), "yes"},
+			{"replay packet id 0", ovpnUDP(ovpnV2, ovpnCrypt(ovpnSID, 0, 0, 53)), "no"},
+			{"replay packet id 2", ovpnUDP(ovpnV2, ovpnCrypt(ovpnSID, 2, 0, 53)), "no"},
+			{"zero session id", ovpnUDP(ovpnV2, ovpnCrypt(make([]byte, 8), 1, 0, 53)), "no"},
+			{"52 bytes", ovpnUDP(ovpnV2, ovpnCrypt(ovpnSID, 1, 0, 52)), "no"},
+			{"54 bytes", ovpnUDP(ovpnV2, ovpnCrypt(ovpnSID, 1, 0, 54)), "no"},
+			{"key id 1", ovpnUDP(ovpnV2|1, ovpnCrypt(ovpnSID, 1, 0, 53)), "no"},
+			{"hard reset v3 opcode", ovpnUDP(ovpnV3, ovpnCrypt(ovpnSID, 1, 0, 53)), "no"},
+			{"plain message", ovpnUDP(ovpnV2, ovpnPlain(ovpnSID, 0, 0)), "no"},
+		},
+		source: "hard reset v2 with tls-crypt: session id, replay packet id 1, timestamp, 32-byte HMAC, 5 encrypted bytes (54 bytes)",
+	},
+	{
+		fn: "modules/l4openvpn.(*MatchOpenVPN).Match", cfgName: "openvpn crypt tcp", heap: ovpnCfg("crypt", true, 0), local: "tcp",
+		cases: []msgCase{
+			{"tls-crypt hard reset", ovpnTCP(ovpnV2, ovpnCrypt(ovpnSID, 1, 0, 53), -1), "yes"},
+			{"replay packet id 2", ovpnTCP(ovpnV2, ovpnCrypt(ovpnSID, 2, 0, 53), -1), "no"},
+			{"54 bytes", ovpnTCP(ovpnV2, ovpnCrypt(ovpnSID, 1, 0, 54), -1), "no"},
+			{"one byte missing", ovpnTCP(ovpnV2, ovpnCrypt(ovpnSID, 1, 0, 53), -1)[:55], "more"},
+		},
+		source: "the same behind the TCP length",
+	},
+	{
+		fn: "modules/l4openvpn.(*MatchOpenVPN).Match", cfgName: "openvpn plain+auth+crypt udp", heap: ovpnCfg("plain,auth,crypt", true, 0), local: "udp",
+		cases: []msgCase{
+			{"plain", ovpnUDP(ovpnV2, ovpnPlain(ovpnSID, 0, 0)), "yes"},
+			{"auth sha1", ovpnUDP(ovpnV2, ovpnAuth(ovpnSID, 20, 1, 0, 0, 0)), "yes"},
+			{"crypt", ovpnUDP(ovpnV2, ovpnCrypt(ovpnSID, 1, 0, 53)), "yes"},
+			{"auth with replay id 2, 53 bytes", ovpnUDP(ovpnV2, ovpnCrypt(ovpnSID, 2, 0, 53)), "no"},
+			{"hard reset v3", ovpnUDP(ovpnV3, ovpnCrypt(ovpnSID, 1, 0, 53)), "no"},
+		},
+		source: "all three v2 modes accepted: each message is taken by its own mode",
+	},
+	{
+		fn: "modules/l4openvpn.(*MatchOpenVPN).Match", cfgName: "openvpn crypt2 udp", heap: ovpnCfg("crypt2", true, 0), local: "udp",
+		cases: []msgCase{
+			{"hard reset v2 plain", ovpnUDP(ovpnV2, ovpnPlain(ovpnSID, 0, 0)), "no"},
+			{"hard reset v2 crypt", ovpnUDP(ovpnV2, ovpnCrypt(ovpnSID, 1, 0, 53)), "no"},
+			{"hard reset v3, 53 bytes (below the minimum)", ovpnUDP(ovpnV3, ovpnCrypt(ovpnSID, 1, 0, 53)), "no"},
+			{"hard reset v3, 342 bytes (one below the minimum)", ovpnUDP(ovpnV3, ovpnCrypt(ovpnSID, 1, 0, 342)), "no"},
+		},
+		source: "only tls-crypt-v2 accepted: v2 resets and too short v3 resets are refused",
+	},
+	{
+		fn: "modules/l4regexp.(*MatchRegexp).Match", cfgName: "regexp ^GET count=4", heap: regexpCfg("^GET ", 4),
+		cases: []msgCase{
+			{"exactly the four bytes", []byte("GET "), "yes"},
+			{"more than count bytes", []byte("GET / HTTP/1.1\r\n"), "yes"},
+			{"other four bytes", []byte("POST"), "no"},
+			{"three bytes", []byte("GET"), "more"},
+			{"one byte", []byte("G"), "more"},
+			{"nothing", []byte{}, "more"},
+		},
+		source: "the regexp matcher reads exactly count bytes and applies the expression to them",
+	},
+	{
+		fn: "modules/l4regexp.(*MatchRegexp).Match", cfgName: "regexp ab$ count=3", heap: regexpCfg("ab$", 3),
+		cases: []msgCase{
+			{"suffix within count", []byte("xab"), "yes"},
+			{"suffix within count, more follows", []byte("xabab"), "yes"},
+			{"suffix only beyond count", []byte("xxxab"), "no"},
+			{"two bytes", []byte("ab"), "more"},
+		},
+		source: "only the first count bytes are looked at",
+	},
+	{
+		fn: "modules/l4regexp.(*MatchRegexp).Match", cfgName: "regexp . count=1", heap: regexpCfg(".", 1),
+		cases: []msgCase{
+			{"one byte", []byte("a"), "yes"},
+			{"line feed", []byte("\n"), "no"},
+			{"nothing", []byte{}, "more"},
+		},
+		source: "count = 1",
+	},
 	{
 		fn: "modules/l4rdp.(*MatchRDP).Match", cfgName: "rdp no filters", heap: rdpCfg("", "", "", ""),
 		cases: []msgCase{
